@@ -40,7 +40,7 @@ func init() {
 const c04ByteShards = 8
 
 func c04SeedNames() []string {
-	return []string{"lib-detached-data-k1", "lib-detached-data-k4", "lib-authenticode-k1", "openssl-smime-detached", "openssl-smime-nodetach", "openssl-cms-detached-nosmimecap",
+	return []string{"lib-detached-data-k1", "lib-detached-data-k4", "lib-detached-data-leaf-k1", "lib-authenticode-k1", "openssl-smime-detached", "openssl-smime-nodetach", "openssl-cms-detached-nosmimecap",
 		"fixture-authenticode/testdata/test.authenticode.signed", "fixture-authenticode/testdata/test.pecoff.pk7", "fixture-pkcs7/testdata/test.signed"}
 }
 
@@ -122,7 +122,13 @@ func c04Judge(c *hx.Ctx, s *p7Seed, blob []byte, class string, isSeed bool) {
 			}
 			var ok, evaluated bool
 			var err error
+			pristine := append([]byte{}, blob...)
 			pn := hx.Try(func() { ok, err, evaluated = e.run(blob, cert.c, s) })
+			if !bytes.Equal(blob, pristine) {
+				c.Outcome("input-modified")
+				c.Violation("C04 parsing/verifying modifies the signature bytes it was given", map[string]any{"seed": s.Name, "derivation": class, "entry": e.name})
+				copy(blob, pristine)
+			}
 			detail := func() map[string]any {
 				return map[string]any{"seed": s.Name, "derivation": class, "entry": e.name, "certificate": cert.name, "blob": hx8(blob), "error": fmt.Sprint(err)}
 			}
